@@ -3,7 +3,7 @@ import json
 import math
 from xml.etree import ElementTree as ET
 
-from core import Result
+from core import Result, guard
 from protocol import enc_tree, dec_tree, canon_tree, canon_sorted, enc_float, enc_str, dec_str
 
 RULE = ("stream enc: typed trees forcing every confusable scalar (True/1/1.0/'1'/'true'/''/None/[]/{}/NaN/±inf/-0.0/big ints/"
@@ -307,9 +307,9 @@ def registry_check(ctx, res):
 
 def run(ctx):
     res = Result()
-    stream_elem(ctx, res, ctx.n(600, 20000))
-    stream_doc(ctx, res, ctx.n(250, 8000))
-    registry_check(ctx, res)
+    guard(res, "C04", stream_elem, ctx, res, ctx.n(600, 20000))
+    guard(res, "C04", stream_doc, ctx, res, ctx.n(250, 8000))
+    guard(res, "C04", registry_check, ctx, res)
     return res
 
 
